@@ -15,7 +15,7 @@ func TestMain(m *testing.M) { pbt.RunMain(m) }
 var txProfile = txm.Profile{
 	Name:       "c12",
 	OpKinds:    []string{"begin", "set", "set", "set", "set", "del", "commit", "commit", "commit", "get", "maint", "reopen", "reopen", "reopen"},
-	MaintKinds: []string{"rotate", "rotate", "compact", "once", "rewrite"},
+	MaintKinds: []string{"rotate", "rotate", "drain", "drain", "once", "rewrite"},
 	ValueSizes: []int{0, 1, 33, 100, 1000, 9000},
 	MaxOps:     70,
 	MaxKeys:    6,
@@ -24,7 +24,7 @@ var txProfile = txm.Profile{
 var plainProfile = plain.Profile{
 	Name:       "c12",
 	OpKinds:    []string{"set", "set", "set", "del", "get", "maint", "maint", "reopen", "reopen", "reopen"},
-	MaintKinds: []string{"rotate", "rotate", "compact", "once", "rewrite"},
+	MaintKinds: []string{"rotate", "rotate", "drain", "drain", "once", "rewrite"},
 	ValueSizes: []int{0, 1, 33, 100, 1000, 9000},
 	MaxOps:     60,
 }
